@@ -83,6 +83,8 @@ def episode1(ctx: Ctx, chk) -> None:
     }
     if term in want_terms:
         chk.ok(rule, key, term, ctx.loc(w, req))
+    elif not term.startswith("Message("):
+        raise AnalysisError(f"EPISODE-1: the request written by the wrapper is `{term[:80]}` - not a Message construction visible at the send ({ctx.loc(w, req)}); this shape is not modelled")
     else:
         chk.refute(rule, key, f"the request is `{term}`; the statement requires a presentation request (internal, I_PRESENTATION, child 255, empty payload) addressed to the node of the rejected message", ctx.loc(w, req))
     # guard on the marker
@@ -177,7 +179,7 @@ def rearm1(ctx: Ctx, chk) -> None:
         ok = False
         where = ""
         wrong = None
-        for f in tables.chain_defs(ctx, cal, V):
+        for f in [ctx.inl(f_) for f_ in tables.chain_defs(ctx, cal, V)]:
             cn = Canon(I, f)
             for node, key in sb.removal_sites(ctx, f, "internal_messages"):
                 where = ctx.loc(f, node)
@@ -188,7 +190,9 @@ def rearm1(ctx: Ctx, chk) -> None:
                 if kc == f"(In.node_id, In.child_id, {pv})":
                     # must precede the delegation to the base handler
                     sup = [x for x in ctx.own_nodes(f) if isinstance(x, ast.Call) and isinstance(x.func, ast.Attribute) and isinstance(x.func.value, ast.Call) and norm(x.func.value.func) == "super"]
-                    if not sup or node.lineno < sup[0].lineno:
+                    order_ = {id(x): i_ for i_, x in enumerate(ast.walk(f.node))}
+                    top_ = {id(x): i_ for i_, st_ in enumerate(f.node.body) for x in ast.walk(st_)}  # written-out code keeps the line numbers of its definition: order by statement
+                    if not sup or top_.get(id(node), 0) < top_.get(id(sup[0]), 0) or (top_.get(id(node), 0) == top_.get(id(sup[0]), 0) and node.lineno < sup[0].lineno):
                         ok = True
                 else:
                     wrong = f"removes the key {kc}"
@@ -199,7 +203,7 @@ def rearm1(ctx: Ctx, chk) -> None:
             from ..prov import truth3
 
             assume = {"In.child_id == 255": True}
-            for f in tables.chain_defs(ctx, cal, V):
+            for f in [ctx.inl(f_) for f_ in tables.chain_defs(ctx, cal, V)]:
                 g_ = CFG(f.node)
                 cn = Canon(I, f)
                 rem = [x for node, key_ in sb.removal_sites(ctx, f, "internal_messages") if key_ is not None and not isinstance(key_, sb.HelperKey) and cn.canon(key_) == f"(In.node_id, In.child_id, {pv})" for x in g_.nodes_where(lambda y, node=node: y.contains(node))]
